@@ -37,7 +37,7 @@ ASSUMPTIONS = ["the two data files emptied by the environment (SimSun_bad_len9, 
                "quick checks shipped data up to length 6, thorough every length"]
 REQUIRED = ["env.shards_with_other_hashseed", "calls.write_bisc_files", "calls.read_bisc_file", "calls.PinWords.store_dfa_for_perm", "calls.PinWords.load_dfa_for_perm",
             "history.overwrites", "history.malformed_reads", "history.reads_decided", "dfa.loads_decided", "shipped.blocks_verified",
-            "shipped.files", "audit.open_events", "emptied_files.reported_invalid", "faults.injected", "dfa.threaded_rounds", "aliasing.read_results_mutated", "history.convention_change_sequences", "history.shipped_names_missing", "history.raw_writes_long_perms", "dfa.nonpin_perms_in_pool"]
+            "shipped.files", "audit.open_events", "emptied_files.reported_invalid", "faults.injected", "dfa.threaded_rounds", "aliasing.read_results_mutated", "history.convention_change_sequences", "history.shipped_names_missing", "history.raw_writes_long_perms", "dfa.nonpin_perms_in_pool", "shipped.blocks_checked_against_library_predicate"]
 MIN_NONTRIVIAL = 60
 CTX = None
 MON = None
@@ -427,6 +427,28 @@ def chk_shipped(ctx, name, N, maxlen):
             return
         ctx.count("shipped.blocks_verified")
         ctx.nt(("shipped", name, N, k))
+    # the data set is named after a property the LIBRARY itself offers: the library's own predicate must split every length of
+    # the files the same way (all lengths up to N, beyond the oracle's bound; a sample at length 9)
+    from permuta.bisc import perm_properties as LPP
+
+    lib = {"Baxter": LPP.baxter, "SimSun": LPP.simsun, "West_2_stack_sortable": lambda q: q.west_2_stack_sortable(), "av_231_and_mesh": LPP.av_231_and_mesh,
+           "dihedral": LPP.dihedral, "forest_like": LPP.forest_like, "in_alternating_group": LPP.in_alternating_group,
+           "quick_sortable": lambda q: q.quick_sortable(), "smooth": LPP.smooth, "stack_sortable": lambda q: q.stack_sortable(),
+           "yt_perm_avoids_22": LPP.yt_perm_avoids_22, "yt_perm_avoids_32": LPP.yt_perm_avoids_32}.get(name)
+    if lib is None:
+        return
+    for k in range(N + 1):
+        for gb, expect in (("good", True), ("bad", False)):
+            block = data[gb][k] if data[gb] is not None else None
+            if block is None:
+                continue
+            step = 1 if k <= 8 else max(1, len(block) // 3000)
+            wrong = [t for t in block[::step] if bool(lib(Perm(t))) is not expect]
+            ctx.ev()
+            ctx.count("shipped.blocks_checked_against_library_predicate")
+            if wrong:
+                report("shipped", [name, N, maxlen], f"{stems[gb]} length {k}: the library's own {name} predicate says {not expect} for {len(wrong)} listed permutations, e.g. {wrong[0]}")
+                return
 
 
 CHECKS = {"files": chk_files, "dfa": chk_dfa, "shipped": chk_shipped}
